@@ -184,6 +184,19 @@ struct Srv {
 }
 
 fn start(n: usize) -> Srv {
+    start_on(executor(), n, 0)
+}
+
+/// State owned by the application's handler whose clean-up takes a while (a pool to close, a thread to join).
+struct SlowDrop(u64);
+impl Drop for SlowDrop {
+    fn drop(&mut self) {
+        std::thread::sleep(Duration::from_millis(self.0));
+    }
+}
+
+/// `slow_drop_ms` > 0: the handler owns state whose `Drop` takes that long.
+fn start_on(ex: &Arc<safina::executor::Executor>, n: usize, slow_drop_ms: u64) -> Srv {
     {
         let mut g = gate().0.lock().unwrap();
         *g = Gate::default();
@@ -196,8 +209,20 @@ fn start(n: usize) -> Srv {
         .small_body_len(64 * 1024)
         .receive_large_bodies(&super::c06::scratch_dir())
         .permit(permit.new_sub());
-    let (addr, stopped) = executor().block_on(b.spawn(handler)).unwrap();
+    let (addr, stopped) = if slow_drop_ms > 0 {
+        let state = Arc::new(SlowDrop(slow_drop_ms));
+        ex.block_on(b.spawn(move |req: Request| { let _keep = &state; handler(req) })).unwrap()
+    } else {
+        ex.block_on(b.spawn(handler)).unwrap()
+    };
     Srv { addr, permit: Some(permit), stopped }
+}
+
+/// An executor with one async thread and `blocking` handler threads (one per distinct size, kept for the process).
+fn small_executor(blocking: usize) -> Arc<safina::executor::Executor> {
+    static E: OnceLock<Mutex<std::collections::HashMap<usize, Arc<safina::executor::Executor>>>> = OnceLock::new();
+    let mut g = E.get_or_init(|| Mutex::new(std::collections::HashMap::new())).lock().unwrap();
+    g.entry(blocking).or_insert_with(|| { safina::timer::start_timer_thread(); safina::executor::Executor::new(1, blocking).unwrap() }).clone()
 }
 
 fn connect(addr: SocketAddr) -> Option<TcpStream> {
@@ -422,7 +447,8 @@ pub fn case_shutdown(ctx: &mut Ctx, n: &str, phases: &str, delay: &str) {
         let files_now = || std::fs::read_dir(super::c06::scratch_dir()).map(|r| r.filter(|e| e.as_ref().map(|e| e.path().is_file()).unwrap_or(false)).count()).unwrap_or(0);
         let files_before = files_now();
         let mut leak = 0usize;
-        let mut srv = start(nn);
+        // (the handler owns state whose clean-up takes 120 ms: the listening socket is released before the signal all the same)
+        let mut srv = start_on(executor(), nn, 120);
         let mut conns: Vec<TcpStream> = Vec::new();
         for (i, p) in ph.iter().enumerate() {
             let Some(mut c) = connect(srv.addr) else { return "noconn".to_string() };
@@ -760,6 +786,82 @@ pub fn run_limit(ctx: &mut Ctx) {
                 case_limit(ctx, &n.to_string(), kinds, &format!("{prefix}{}", delays.join(",")));
             }
         }
+    }
+}
+
+/// c13b: every thread of the handler pool is inside a handler when the permit is revoked (pool of `k` threads, `k` gated
+/// requests): the listening socket is released and the stopped signal delivered all the same, within the bound and before the
+/// handlers return; the requests in flight then get their responses.
+pub fn case_shutdown_busy(ctx: &mut Ctx, k: &str) {
+    let kk: usize = k.parse().unwrap();
+    let obs = guard(move || {
+        let ex = small_executor(kk);
+        let mut srv = start_on(&ex, kk + 1, 0);
+        let clients: Vec<_> = (0..kk).map(|i| { let addr = srv.addr; std::thread::spawn(move || client(addr, 'g', 3000 + i, 0)) }).collect();
+        let inside = wait_gauge(|g| g.entered >= kk, Duration::from_secs(5));
+        let early = srv.stopped.try_recv().is_ok();
+        let t0 = Instant::now();
+        drop(srv.permit.take());
+        let stopped = srv.stopped.recv_timeout(Duration::from_secs(3)).is_ok();
+        let took = t0.elapsed();
+        let refused = TcpStream::connect_timeout(&srv.addr, Duration::from_millis(500)).is_err();
+        let still_running = gate().0.lock().unwrap().entered;
+        release_all();
+        let outs: Vec<String> = clients.into_iter().map(|h| h.join().map(|r| r.0).unwrap_or_default()).collect();
+        format!("inside={} early={} stopped={} bounded={} refused={} handlers_still_running={} out={}", u8::from(inside), u8::from(early), u8::from(stopped),
+            u8::from(took < Duration::from_millis(2500)), u8::from(refused), still_running, outs.join(","))
+    });
+    ctx.emit("c13b", &[k], &obs);
+}
+
+pub fn run_shutdown_busy(ctx: &mut Ctx) {
+    for (i, k) in [1usize, 2, 3].iter().enumerate() {
+        if ctx.mine(i as u64) { case_shutdown_busy(ctx, &k.to_string()); }
+    }
+}
+
+/// c12i: accepts keep failing (descriptor table full) on a server whose executor has ONE async thread, while `k` idle
+/// keep-alive clients end their connections (they shut down both directions and keep their descriptors): only the server's
+/// own connection tasks can free descriptors.  They must get to run: the client waiting in the backlog is then served.
+pub fn case_emfile_idle(ctx: &mut Ctx, k: &str) {
+    let kk: usize = k.parse().unwrap();
+    let obs = guard(move || {
+        let ex = small_executor(8);
+        let srv = start_on(&ex, kk + 2, 0);
+        let mut idle: Vec<TcpStream> = Vec::new();
+        for _ in 0..kk {
+            let Some(mut c) = connect(srv.addr) else { return "noconn".to_string() };
+            let _ = c.write_all(b"GET /ok HTTP/1.1\r\n\r\n");
+            if read_response(&mut c) != "200/2" { return "setup-failed".to_string(); }
+            idle.push(c);
+        }
+        if !set_nofile_soft(192) { return "no-prlimit".to_string(); }
+        let mut dummies: Vec<std::fs::File> = Vec::new();
+        while let Ok(f) = std::fs::File::open("/dev/null") { dummies.push(f); if dummies.len() > 4096 { break; } }
+        dummies.pop();
+        let mut w = match TcpStream::connect_timeout(&srv.addr, Duration::from_secs(5)) {
+            Ok(c) => c,
+            Err(e) => { drop(dummies); let _ = set_nofile_soft(20000); return format!("noconn:{e}"); }
+        };
+        let _ = w.write_all(b"GET /ok?w HTTP/1.1\r\n\r\n");
+        let _ = w.set_read_timeout(Some(Duration::from_millis(700)));
+        let starved = read_response(&mut w).starts_with("timeout");
+        // the idle clients end their connections but keep their descriptors
+        for c in &idle { let _ = c.shutdown(std::net::Shutdown::Both); }
+        let _ = w.set_read_timeout(Some(Duration::from_secs(4)));
+        let served = read_response(&mut w) == "200/2";
+        drop(dummies);
+        let _ = set_nofile_soft(20000);
+        drop(idle);
+        let stopped = stop(srv);
+        format!("starved={} served={} stopped={}", u8::from(starved), u8::from(served), u8::from(stopped))
+    });
+    ctx.emit("c12i", &[k], &obs);
+}
+
+pub fn run_emfile_idle(ctx: &mut Ctx) {
+    for (i, k) in [4usize, 2].iter().enumerate() {
+        if ctx.mine(i as u64) { case_emfile_idle(ctx, &k.to_string()); }
     }
 }
 
